@@ -323,11 +323,62 @@ def diagnose(item):
                     seen.add(y)
                     todo.append(y)
     if any(isinstance(t, list) and t and t[0] == "deftemplate" for t in tops):
-        return "in deftemplate expansion"
+        return "in deftemplate expansion" + template_class(tops)
     d = max_depth(tops)
     if d > 64:
         return "in nesting depth %d" % d
     return "in unknown entry"
+
+
+EXPAND_KW = ("template-expand", "t!")
+TPL_LITERAL = " (a template body expands its own or a later template)"
+TPL_SUBST = " (expansion keyword passed as a template argument)"
+
+
+def template_class(tops):
+    """The input class of a text with templates whose loading did not finish (part of the signature, so
+    that a known finding for one class does not cover the others):
+    TPL_LITERAL  the recursion is written in the text: some deftemplate body names, behind template-expand
+                 or t!, its own template or one declared later (what the documented declaration-order
+                 rule forbids);
+    TPL_SUBST    no such body, but a template call passes the expansion keyword itself as an argument, so
+                 an expansion call can come into being by parameter substitution;
+    ""           neither."""
+    order = {}
+    bodies = []
+    for t in tops:
+        if isinstance(t, list) and len(t) >= 2 and t[0] == "deftemplate" and isinstance(t[1], str):
+            order.setdefault(t[1], len(order))
+            bodies.append((t[1], t[3:]))
+
+    def named(n):
+        """template names standing behind an expansion keyword, at any depth"""
+        out = []
+        if isinstance(n, list):
+            for i, x in enumerate(n):
+                if isinstance(x, str):
+                    if x in EXPAND_KW and i + 1 < len(n) and isinstance(n[i + 1], str):
+                        out.append(n[i + 1])
+                else:
+                    out += named(x)
+        return out
+    for name, body in bodies:
+        for u in named(body):
+            if u in order and order[u] >= order[name]:
+                return TPL_LITERAL
+
+    def has_kw(n):
+        return n in EXPAND_KW if isinstance(n, str) else any(has_kw(x) for x in n)
+
+    def passes_kw(n):
+        if isinstance(n, str):
+            return False
+        if n and n[0] in EXPAND_KW and any(has_kw(x) for x in n[2:]):
+            return True
+        return any(passes_kw(x) for x in n)
+    if passes_kw(tops):
+        return TPL_SUBST
+    return ""
 
 
 def max_depth(n):
@@ -622,3 +673,152 @@ def frame(ctx, name, args):
     if ctx == "layeropt":
         return GBASE + "(deflayer (l " + inner + ") a b)\n", {}
     raise ToolError("unknown grammar context %r" % ctx)
+
+
+# ------------------------------------------------------------------ template graphs (spec/CfgTemplates.tla)
+def template_text(g, use, pos):
+    """The text of one (graph, use, pos) line of CfgTemplates."""
+    n = len(g)
+
+    def has_param(j):
+        return j <= n and g[j - 1]["k"] == "subst"
+
+    def call(kw, j):
+        return "(%s t%d%s)" % (kw, j, " " + kw if has_param(j) else "")
+
+    def body(e):
+        k, j = e["k"], e["j"]
+        if k == "const":
+            return "a"
+        if k in ("long", "nlong"):
+            c = call("template-expand", j)
+        elif k in ("short", "nshort"):
+            c = call("t!", j)
+        elif k == "subst":
+            return "($x t%d%s)" % (j, " $x" if has_param(j) else "")
+        else:
+            raise ToolError("unknown template body kind %r" % k)
+        return "(multi %s b)" % c if k[0] == "n" else c
+    decls = "".join("(deftemplate t%d (%s) %s)\n" % (i + 1, "x" if e["k"] == "subst" else "", body(e)) for i, e in enumerate(g))
+    if use == 0:
+        u = "a"
+    elif use <= n:
+        u = call("t!", use)
+    else:
+        u = call("template-expand", use - n)
+    layer = "(defsrc a)\n(deflayer base %s)\n" % u
+    return decls + layer if pos == "before" else layer + decls
+
+
+# ------------------------------------------------------------------ capacity boundaries (spec/CfgCaps.tla)
+KEYNAMES = [chr(c) for c in range(ord("a"), ord("z") + 1)] + [str(d) for d in range(10)]
+
+
+def _keys(n, off=0):
+    return " ".join(KEYNAMES[(i + off) % 26] for i in range(n))
+
+
+def local_codes(wd):
+    """The key codes deflocalkeys accepts (= the codes that have a slot in a layer row and a name), asked
+    from the real loader: one tiny text per code 0..800."""
+    items = [{"id": i, "text": "(deflocalkeys-linux kvk %d)\n(defsrc kvk)\n(deflayer base a)\n" % i, "files": {}} for i in range(801)]
+    r = run_probe(items, wd, "codes", to_ms=5000, shards=4)
+    return [i for i in range(801) if r[i]["outcome"] == "ok"]
+
+
+def cap_text(c, codes):
+    """The text of one case of CfgCaps: only prints what the case describes.  codes: local_codes()."""
+    cap, t, n, a, b, ops = c["c"], c["t"], c["n"], c["a"], c["b"], list(c["ops"])
+    L1 = "(defsrc a)\n(deflayer base %s)\n"
+    if cap == "switch-opcodes":
+        last = {"key": "b", "key-history": "(key-history a 1)", "key-timing": "(key-timing 1 lt 100)",
+                "input": "(input real a)", "input-virtual": "(input virtual kvv)", "input-history": "(input-history real a 1)",
+                "layer": "(layer base)", "base-layer": "(base-layer base)"}[a]
+        fill = _keys(n)
+        inner = (fill + " " + last) if b == "inner" else last
+        for op in reversed(ops):
+            inner = "(%s %s)" % (op, inner)
+        km = inner if b == "inner" else fill + " " + inner
+        return "(defvirtualkeys kvv a)\n" + L1 % ("(switch (%s) x break)" % km)
+    if cap == "switch-depth":
+        pat = ["or", "and", "not"] if a == "mixed" else [a]
+        e = "a"
+        for i in range(t):
+            e = "(%s %s)" % (pat[(t - 1 - i) % len(pat)], e)
+        return L1 % ("(switch (%s) x break)" % e)
+    if cap == "key-recency":
+        item = {"key-history": "(key-history a %d)", "input-history": "(input-history real a %d)", "key-timing": "(key-timing %d lt 100)"}[a] % t
+        return L1 % ("(switch (%s) x break)" % item)
+    if cap == "chord-keys":
+        cs = [x for x in codes if x != 0]      # a defsrc key with code 0 does not take part in the layer
+        if t > len(cs):
+            raise ToolError("chord-keys: %d keys needed, the loader names only %d codes" % (t, len(cs)))
+        ks = ["kv%d" % i for i in range(t)]
+        if a == "one-chord":
+            body = "(%s) x" % " ".join(ks)
+        elif a == "singles":
+            body = " ".join("(%s) x" % k for k in ks)
+        else:
+            h = t // 2
+            body = "(%s) x (%s) y" % (" ".join(ks[:h]), " ".join(ks[h:]))
+        return "(deflocalkeys-linux %s)\n(defsrc %s)\n(deflayer base %s)\n(defchords g 100 %s)\n" % (
+            " ".join("%s %d" % (k, cs[i]) for i, k in enumerate(ks)), " ".join(ks),
+            " ".join("(chord g %s)" % k for k in ks), body)
+    if cap == "chord-groups":
+        # every group has to be bound somewhere and a key takes one chord: as many layers as it needs
+        cs = [x for x in codes if x != 0]
+        ks = ["kv%d" % i for i in range(len(cs))]
+        out = ["(deflocalkeys-linux %s)\n(defsrc %s)\n" % (" ".join("%s %d" % (k, cs[i]) for i, k in enumerate(ks)), " ".join(ks))]
+        for l in range((t + len(ks) - 1) // len(ks)):
+            row = ["(chord g%d a)" % g if g < t else "a" for g in range(l * len(ks), (l + 1) * len(ks))]
+            out.append("(deflayer l%d %s)\n" % (l, " ".join(row)))
+        out += ["(defchords g%d 100 (a) x)\n" % i for i in range(t)]
+        return "".join(out)
+    if cap == "virtual-keys":
+        ent = ["v%d a" % i for i in range(t)]
+        if a in ("deffakekeys", "defvirtualkeys"):
+            forms = "(%s %s)\n" % (a, " ".join(ent))
+        elif a == "both":
+            forms = "(deffakekeys %s)\n(defvirtualkeys %s)\n" % (" ".join(ent[:t // 2]), " ".join(ent[t // 2:]))
+        else:
+            forms = "(deffakekeys %s)\n(deffakekeys %s)\n" % (" ".join(ent[:t - 1]), ent[t - 1])
+        return L1 % "(on-press tap-vkey v0)" + forms
+    if cap == "layers":
+        return "(defsrc a)\n" + "".join("(deflayer l%d a)\n" % i for i in range(t))
+    if cap == "seq-overlap":
+        grp = "O-(%s)" % _keys(t)
+        seq = {"alone": grp, "key-before": "z " + grp, "key-after": grp + " z", "two-groups": grp + " O-(y z)"}[a]
+        return "(defsrc a)\n(deflayer base sldr)\n(defvirtualkeys v x)\n(defseq v (%s))\n" % seq
+    if cap == "localkey-code":
+        return "(deflocalkeys-linux kvk %d)\n(defsrc %s)\n(deflayer base a)\n" % (t, "kvk" if a == "in-defsrc" else "a")
+    if cap == "defsrc-keys":
+        names = ["kv%d" % i for i in range(len(codes))]
+        src = {"all-but-one": names[:-1], "all": names, "all-plus-one-again": names + names[:1],
+               "all-plus-two-again": names + names[-2:]}[a]
+        return "(deflocalkeys-linux %s)\n(defsrc %s)\n(deflayer base %s)\n" % (
+            " ".join("%s %d" % (k, codes[i]) for i, k in enumerate(names)), " ".join(src), " ".join("a" for _ in src))
+    if cap == "distance":
+        ac = {"mwheel-up": "(mwheel-up 50 %d)", "movemouse-up": "(movemouse-up 5 %d)",
+              "movemouse-accel-min": "(movemouse-accel-up 5 1000 %d 30000)", "movemouse-accel-max": "(movemouse-accel-up 5 1000 1 %d)"}[a] % t
+        return L1 % ac
+    if cap == "hwid":
+        ids = ", ".join(str(i % 256) for i in range(t))
+        val = '"%s"' % ids if a.endswith("hwid") else '("%s")' % ids
+        return "(defcfg %s %s)\n" % (a, val) + L1 % "a"
+    if cap == "width":
+        if a in ("macro", "multi"):
+            act = {"macro": "(macro %s)", "multi": "(multi %s)", }[a] % _keys(t)
+            return L1 % act
+        if a == "concat":
+            return "(defvar kvc (concat %s))\n" % _keys(t) + L1 % "(macro $kvc)"
+        if a in ("tap-dance", "tap-dance-eager"):
+            return L1 % ("(%s 200 (%s))" % (a, _keys(t)))
+        if a == "defseq-keys":
+            return "(defsrc a)\n(deflayer base sldr)\n(defvirtualkeys v x)\n(defseq v (%s))\n" % _keys(t)
+        if a == "defalias":
+            return "(defsrc a)\n(defalias %s)\n(deflayer base @n%d)\n" % (" ".join("n%d a" % i for i in range(t)), t - 1)
+        if a == "defvar":
+            return "(defsrc a)\n(defvar %s)\n(deflayer base $n%d)\n" % (" ".join("n%d a" % i for i in range(t)), t - 1)
+        if a == "deflayer":
+            return "(defsrc a)\n" + "".join("(deflayer l%d a)\n" % i for i in range(t))
+    raise ToolError("unknown capacity case %r" % (c,))
